@@ -210,3 +210,80 @@ def self_field_of_place(place):
         if isinstance(e, list) and e[0] == "f":
             return e[2]
     return None
+
+
+def rv_is_variant(body, rv, variant, depth=0):
+    """is the rvalue the enum variant `variant` (directly, or a move of a local whose only def is)?"""
+    if rv[0] == "agg" and rv[1][0] == "adt" and rv[1][3] == variant:
+        return True
+    if rv[0] == "use" and rv[1][0] in ("c", "m") and not rv[1][1][1] and depth < 4:
+        ds = body.defs().get(rv[1][1][0], [])
+        if len(ds) == 1 and ds[0][0] == "s":
+            return rv_is_variant(body, ds[0][3], variant, depth + 1)
+    if rv[0] == "use" and rv[1][0] == "k" and variant in rv[1][1]:
+        return True
+    return False
+
+
+def closure_creations(F, cl_fn):
+    """where is closure `cl_fn` constructed?  yields (creating Body, block, local holding the closure)"""
+    root = cl_fn.get("parent")
+    cname = cl_fn["id"].lstrip("<").split("::", 1)[0]
+    crate = F.crate(cname) if cname in F.info["files"] else None
+    if crate is None:
+        return
+    cands = [f for f in crate.by_id.get(root, [])] + crate.closures_of.get(root, [])
+    for fn in cands:
+        if "mir" not in fn or fn is cl_fn:
+            continue
+        for bi, bl in enumerate(fn["mir"]["blocks"]):
+            for s in bl["s"]:
+                if s[0] == "a" and s[2][0] == "agg" and s[2][1][0] in ("closure", "coroutine", "coroutine_closure") and s[2][1][1] == cl_fn["id"]:
+                    yield Body(fn), bi, s[1][0]
+
+
+def value_flows_to_calls(body, local, depth=0, seen=None):
+    """calls that receive `local` (or a move/ref alias of it) as an argument: list of (block, term, arg index)"""
+    seen = seen or set()
+    if local in seen or depth > 6:
+        return []
+    seen.add(local)
+    out = []
+    for u in body.uses(local):
+        if u["kind"] == "arg":
+            out.append((u["b"], u["t"], u["argi"]))
+        elif u["kind"] == "stmt":
+            rv = u["s"][2]
+            if rv[0] in ("use", "ref", "cast") and not u["s"][1][1]:
+                out += value_flows_to_calls(body, u["s"][1][0], depth + 1, seen)
+    return out
+
+
+def control_dependent_on(body, block, switch_pred):
+    """is `block` control dependent on a switch satisfying switch_pred(body, switch_block)?  i.e. some
+    out-edge of such a switch, when removed, makes `block` unreachable from entry.  returns the switch blocks."""
+    out = []
+    for sb in range(body.n):
+        t = body.term(sb)
+        if t["k"] != "switch" or not switch_pred(body, sb):
+            continue
+        for tgt in body.succ(sb):
+            if block not in body.reachable(0, removed_edges=[(sb, tgt)]):
+                out.append(sb)
+                break
+    return out
+
+
+def switch_discr_sources(body, sb):
+    """(calls, discr-types) the switch's discriminant derives from"""
+    t = body.term(sb)
+    l = op_local(t["d"])
+    if l is None:
+        return [], []
+    seen, calls = body.back_slice(l)
+    dtys = []
+    for x in seen:
+        for d in body.defs().get(x, []):
+            if d[0] == "s" and d[3][0] == "discr":
+                dtys.append(d[3][2])
+    return [c for _, c in calls], dtys
